@@ -19,6 +19,7 @@ Ltac gj_norm :=
   [ progress cbn [bind andb orb negb Calendar_f_0 inner_ReformGap_f_post_reform inner_ReformGap_f_pre_reform inner_ReformGap_f_ordinal_gap
                   inner_Date_f_year inner_Date_f_ordinal]
   | progress cbv zeta
+  | progress autounfold with gen_new
   | rewrite Year.gap_ok
   | progress cmp_simpl
   | rewrite u32_add_ok by range
@@ -107,7 +108,7 @@ Proof.
   destruct (lbl c j) as [[y' m] d] eqn:EL. cbn [l_year fst] in LY. subst y'. destruct A as [A _]. rewrite OO in A.
   unfold ymddo_spec in A. rewrite E in A.
   destruct (locate c y o) as [[m' p]|]; [|discriminate]. injection A as E1 E2 E3. rewrite E1, E2, E3. cbn [bind].
-  rewrite get_jdn_ok by assumption. cbn [bind]. fold j. unfold jdn_result.
+  autounfold with gen_new. cbn [bind]. rewrite get_jdn_ok by assumption. cbn [bind]. fold j. unfold jdn_result.
   destruct (chk_jdn j) as [j'|] eqn:CJ; [|reflexivity].
   apply chk_jdn_some in CJ. destruct CJ as [E' _]. rewrite E'. rewrite EL, OO. reflexivity.
 Qed.
@@ -137,7 +138,7 @@ Proof.
   assert (OR : 1 <= msum c y mz + p <= year_count c y).
   { rewrite <- msum_total. pose proof (msum_le c y 1 mz ltac:(lia) ltac:(lia) ltac:(lia)). rewrite msum_1 in *.
     pose proof (msum_le c y (mz + 1) 13 ltac:(lia) ltac:(lia) ltac:(lia)). lia. }
-  rewrite get_jdn_ok by assumption. cbn [bind]. unfold jdn_result, date_result.
+  autounfold with gen_new. cbn [bind]. rewrite get_jdn_ok by assumption. cbn [bind]. unfold jdn_result, date_result.
   destruct (chk_jdn (jdn_of_ordinal c y (msum c y mz + p))) as [j|] eqn:CJ; [|reflexivity].
   apply chk_jdn_some in CJ. destruct CJ as [-> _].
   destruct (ymd_inv c y mz d p _ V Mr Ex In Ep eq_refl) as (EL & OO & DO).
